@@ -54,12 +54,18 @@ def run(ctx, proofs):
     disagreements, failing = [], []
     shapes = set()
     kinds = {"blocks>=2": 0, "with_loop": 0, "with_branch_pending_at_end": 0}
+    # second audit: `# ssa skipped` (the driver does not run into_ssa on deeply nested if/else, lifteng.SSA_MAX_ELSE)
+    # is accepted by cfg_compare and by the clauses below without a word; it is counted here, per reason, and a run
+    # in which more than half of the cases skip into_ssa is degenerate
+    ssa = {"checked": 0, "skipped": 0, "not_reached(into_cfg failed)": 0}
     for case, impl, model in results:
         d = lifteng.cfg_compare(case, impl, model)
         if d is not None:
             disagreements.append(d)
         if impl.startswith("cfg ") and " # ssa " in impl:
             for which, text in zip(("into_cfg", "into_ssa"), impl[4:].split(" # ssa ", 1)):
+                if which == "into_ssa":
+                    ssa["skipped" if text == "skipped" else "checked"] += 1
                 if text == "skipped":
                     continue
                 if text in ("error", "panic"):
@@ -80,7 +86,9 @@ def run(ctx, proofs):
                         kinds["with_loop"] += 1
                     if "/-" in before:
                         kinds["with_branch_pending_at_end"] += 1
-        elif impl in ("cfg panic", "cfg error", "noparse"):
+        else:
+            ssa["not_reached(into_cfg failed)"] += 1
+        if impl in ("cfg panic", "cfg error", "noparse"):
             # every generated skeleton follows the grammar and must lift
             failing.append({"input": case["src"], "body": lifteng.to_jsonable(case["body"]), "impl": impl,
                             "spec": "parses and lifts (model: %s)" % model[:200]})
@@ -96,6 +104,11 @@ def run(ctx, proofs):
         elif proofs["failures"]:
             ctx.violation("proof obligations of C12 no longer check: " + "; ".join(proofs["failures"])[:500],
                           {"broken": "props/C12.v", "failures": proofs["failures"]}, no_input=True)
+        elif 2 * ssa["skipped"] > len(results):
+            ctx.violation("degenerate run: into_ssa was skipped on %d of %d cases (more than half); the graph after SSA was "
+                          "compared and checked on %d only" % (ssa["skipped"], len(results), ssa["checked"]),
+                          {"broken": "coverage of the check: `# ssa skipped` accepted on more than half of the cases", "ssa": ssa},
+                          no_input=True)
     ctx.coverage.update({
         "evaluations": len(results),
         "distinct_nontrivial": len(shapes),
@@ -110,6 +123,10 @@ def run(ctx, proofs):
         "exhaustive_part": "all %d bodies with <= %d nodes" % (n_exh, max_nodes),
         "random_size_histogram": {str(k): v for k, v in sorted(sizes.items())},
         "shape_kinds": kinds,
+        "into_ssa": dict(ssa, rule="per case: `checked` = the block list after into_ssa was compared with the model and checked "
+                                   "against the clauses; `skipped` = the driver did not run into_ssa (more than %d `else` branches: "
+                                   "memory exponential in the if/else nesting) and only the graph after into_cfg was compared and "
+                                   "checked; a run with more than half skipped is reported as degenerate" % lifteng.SSA_MAX_ELSE),
         "samples": [disagreements[0]] if disagreements else [
             {"src": results[len(results) // 3][0]["src"], "impl": results[len(results) // 3][1][:300]},
             {"src": results[-1][0]["src"][:300], "impl": results[-1][1][:300]}],
